@@ -536,3 +536,25 @@ def _(c):
     c.ensures("all([ (rowsof(self)[i][1] >= rowsof(self)[i+1][1]) if reverse else (rowsof(self)[i][1] <= rowsof(self)[i+1][1]) for i in range(len(rowsof(self)) - 1)])", "sorted-by-column-in-the-requested-direction")
     c.ensures("len(rowsof(self)) == len(old(rowsof(self))) and all([count_row(rowsof(self), r) == count_row(old(rowsof(self)), r) for r in old(rowsof(self))])", "multiset-of-rows-preserved")
     c.no_raise()
+
+
+# ---- array-mode collectors with typed columns: fixed-width (also unsigned) integer columns sort like any other -------------------------
+@contract(RC + ".sort", "C20", name="RowCollector.sort[typed-array-columns]")
+def _(c):
+    import numpy as np
+    c.bound = "collectors in array mode with 0..3 rows; key column of dtype uint8, uint16, int8 or int64 holding symbolic integers of that range"
+    for dt in ("uint8", "uint16", "int8", "int64"):
+        for n in range(0, 4):
+            for rev in (False, True):
+                def pre(b, dt=dt, n=n, rev=rev):
+                    info = np.iinfo(dt)
+                    rc = b.new(RC, b.dict({"k": b.dict(dict(dtype=b.const(getattr(np, dt)))), "v": b.dict(dict(dtype=b.const(float)))}), array=True)
+                    for i in range(n):
+                        k = b.int(f"k{i}")
+                        b.assume_rel(k, ">=", int(info.min)); b.assume_rel(k, "<=", int(info.max))
+                        b.call(b.getattr(rc, "append"), b.list([k, b.real(f"v{i}")]))
+                    return dict(args=[rc, "k", rev])
+                c.scenario(f"{dt}-n{n}-{'desc' if rev else 'asc'}", pre)
+    c.ensures("all([ (list(self.k)[i] >= list(self.k)[i+1]) if reverse else (list(self.k)[i] <= list(self.k)[i+1]) for i in range(len(list(self.k)) - 1)])", "sorted-by-the-typed-column")
+    c.ensures("len(list(self.k)) == len(old(list(self.k))) and all([count_row(list(zip(list(self.k), list(self.v))), r) == count_row(old(list(zip(list(self.k), list(self.v)))), r) for r in old(list(zip(list(self.k), list(self.v))))])", "multiset-of-rows-preserved")
+    c.no_raise()
